@@ -219,7 +219,7 @@ def results_for_property(prop: str, tier: str, only: Optional[str] = None,
                     o.verdict = UNDECIDED
                     o.detail = ('refuted under the encoding but the decoded input satisfies the contract '
                                 'natively (abstraction artefact): ' + c['detail'])
-                elif lid in ledger or (t in fully and cname.startswith(GENERIC_FAMILIES)):
+                elif lid in ledger or (t in fully and (cname.startswith(GENERIC_FAMILIES) or '.heap-unchanged.' in cname)):
                     o.failures.append(Failure(
                         obligation=oid, key=cname,
                         message=(f'obligation {lid} was discharged on the pinned tree and is now refuted by '
